@@ -352,7 +352,11 @@ class ObjInterp(Interp):
     def fields_view(self, cls):
         if cls.fields is None:
             raise PyRaise(AttributeError("__dataclass_fields__"))
-        return {n: Obj(name=n, metadata=copy.deepcopy(fi.metadata)) for n, fi in cls.fields.items()}
+        fv = getattr(cls, "_fv", None)
+        if fv is None:
+            # the analysed code only reads field metadata; one view per class
+            fv = cls._fv = {n: Obj(name=n, metadata=copy.deepcopy(fi.metadata)) for n, fi in cls.fields.items()}
+        return fv
 
     def get_attr(self, o, name):
         if isinstance(o, Inst):
